@@ -347,6 +347,63 @@ fn zero_arg_cells(ctx: &vh::explore::Ctx, stats: &mut Stats) {
     }
 }
 
+/// Calls into the mock made by destructors: of a value the mock itself holds (released inside the
+/// final verification), and of a guard that is dropped while its thread unwinds from a user panic.
+/// The call is refused, the destructor swallows the panic; verifying the original reports it.
+fn destructor_cells(ctx: &vh::explore::Ctx, stats: &mut Stats) {
+    use unimock::*;
+    struct CallsOnDrop(Unimock);
+    impl Drop for CallsOnDrop {
+        fn drop(&mut self) {
+            let _ = catch(|| <Unimock as A>::b(&self.0, 7));
+        }
+    }
+    let needle = "A::b(7): No mock implementation found";
+    let mut cell = |name: &str, verdict: Verdict| {
+        stats.add("traces_validated_against_impl", 1);
+        stats.add("transitions", 2);
+        stats.add("destructor_cells", 1);
+        let ok = matches!(&verdict, Verdict::Failed(lines) if lines.join("\n").contains(needle));
+        if !ok {
+            ctx.violation(
+                &format!("destructor/{name}"),
+                &format!("destructor/{name}: a destructor made the refused call A::b(7) and swallowed the panic; verification of the original gave {verdict:?}, it must carry {needle:?}"),
+                vh::json::J::obj().set("destructor_cell", name),
+            );
+        }
+    };
+    // (1) the value sits in the original's own value chain and is released by its teardown
+    for how in [VerifyHow::Drop, VerifyHow::Verify] {
+        let original = Unimock::new(AMock::a.each_call(matching!(_)).returns(1u32));
+        let _ = <Unimock as A>::a(&original, 0);
+        let _lent: &CallsOnDrop = original.make_ref(CallsOnDrop(original.clone()));
+        cell(&format!("lent-value-released-by-teardown/{how:?}"), verify_by(original, how));
+    }
+    if ctx.variant == "std" {
+        // (2) a guard on a worker thread, dropped by the unwinding of a user panic
+        let original = Unimock::new(AMock::a.each_call(matching!(_)).returns(1u32));
+        let _ = <Unimock as A>::a(&original, 0);
+        let clone = original.clone();
+        let r = std::thread::spawn(move || {
+            let _guard = CallsOnDrop(clone);
+            panic!("user panic on the worker");
+        })
+        .join();
+        assert!(r.is_err());
+        cell("guard-dropped-while-unwinding/worker-thread", verify_by(original, VerifyHow::Drop));
+        // (3) the same on the creator thread, contained by catch_unwind
+        let original = Unimock::new(AMock::a.each_call(matching!(_)).returns(1u32));
+        let _ = <Unimock as A>::a(&original, 0);
+        let clone = original.clone();
+        let r = catch(move || {
+            let _guard = CallsOnDrop(clone);
+            panic!("user panic");
+        });
+        assert!(r.is_err());
+        cell("guard-dropped-while-unwinding/caught", verify_by(original, VerifyHow::Drop));
+    }
+}
+
 /// Many mock-induced panics on one mock (more than any fixed small number): every one of them is
 /// in the verification message, in the order in which they were raised.
 fn many_errors_cells(ctx: &vh::explore::Ctx, stats: &mut Stats) {
@@ -524,6 +581,7 @@ fn main() {
         stats.merge(p);
     }
     many_errors_cells(ctx, &mut stats);
+    destructor_cells(ctx, &mut stats);
     guard(&stats, 12, true);
     let s_traces = stats.get("traces_validated_against_impl");
 
